@@ -5,6 +5,7 @@
 package main
 
 import (
+	"sort"
 	"bufio"
 	"fmt"
 	"math/rand"
@@ -66,8 +67,19 @@ func (g *gen) bytes(n int) []byte {
 }
 
 func main() {
+	if len(os.Args) == 2 && os.Args[1] == "list" {
+		// the properties this binary serves (a file that did not compile against the current source is left out of the
+		// build by ./check, together with whatever depends on it)
+		var ids []string
+		for id := range props {
+			ids = append(ids, id)
+		}
+		sort.Strings(ids)
+		fmt.Println(strings.Join(ids, " "))
+		return
+	}
 	if len(os.Args) < 3 {
-		fmt.Fprintln(os.Stderr, "usage: vharness gen|run Cxx [seed tier]")
+		fmt.Fprintln(os.Stderr, "usage: vharness gen|run Cxx [seed tier] | vharness list")
 		os.Exit(2)
 	}
 	p, ok := props[os.Args[2]]
